@@ -6,9 +6,11 @@ from __future__ import annotations
 import traceback
 from fractions import Fraction as F
 
+import jax
 import jax.numpy as jnp
 import numpy as np
 from jax.flatten_util import ravel_pytree
+from probdiffeq._probdiffeq import taylor_points
 
 from harness import jets
 from harness.exact import close, maxerr, to_float
@@ -78,13 +80,15 @@ def stack_program(rng, *, dmax=2):
     return dict(kind="stack", d=d, parts=parts, c=c, t=t)
 
 
-def lin_program(rng, *, dmax=2, lmax=2):
-    d = rng.randint(1, dmax)
-    fromode = rng.random() < 0.55
-    J = rng.choice([1, 2]) if fromode else rng.choice([1, 2, 3])
+def lin_program(rng, *, dmax=2, lmax=2, mc_exact=False):
+    """mc_exact: an unlifted element-wise residual of the state alone in d >= 2 dimensions (the stochastic Jacobian
+    handlers are exact on it for every probe, see replay_lin)"""
+    d = rng.randint(2, 3) if mc_exact else rng.randint(1, dmax)
+    fromode = (not mc_exact) and rng.random() < 0.55
+    J = 1 if mc_exact else (rng.choice([1, 2]) if fromode else rng.choice([1, 2, 3]))
     tdep = rng.random() < 0.6
-    polys = jets.gen_poly(rng, d, J, tdep=tdep, dout=d, max_terms=3, p_empty=0.05)
-    L = rng.randint(0, lmax)
+    polys = jets.gen_poly(rng, d, J, tdep=tdep, dout=d, max_terms=3, p_empty=0.0 if mc_exact else 0.05, elementwise=mc_exact)
+    L = 0 if mc_exact else rng.randint(0, lmax)
     jeff = J + 1 if fromode else J
     n = jeff + L + rng.choice([0, 0, 1])
     return dict(
@@ -313,6 +317,17 @@ def _layout(kind, e, which):
     raise KeyError(which)
 
 
+def _elementwise_single_block(e, d):
+    """every output dimension depends on its own state dimension only (all d x d blocks of the exact Jacobian are
+    diagonal) and on a single Taylor coefficient (one non-zero block column)"""
+    Jf = np.asarray(to_float(e["Jfull"]))
+    r, c = Jf.shape
+    if any(Jf[i, j] != 0 for i in range(r) for j in range(c) if i % d != j % d):
+        return False
+    blocks = {j // d for i in range(r) for j in range(c) if Jf[i, j] != 0}
+    return len(blocks) <= 1
+
+
 def replay_lin(p, exp):
     rec = _Rec("time-dependent" if p["tdep"] else "autonomous")
     d, J, L, t = p["d"], p["J"], p["L"], float(p["t"])
@@ -332,6 +347,8 @@ def replay_lin(p, exp):
             # the affine model reproduces the constraint value at the linearisation point (unit en/decoders)
             rec.array(f"{kind}:{site}", "value-at-mean", cond.apply_flat(rv.mean_flat).mean_flat, _layout(kind, e, "val"))
 
+        if kind == "dense":
+            _shifted_point(rec, p, ssm, rv, damp, t)
         if p["fromode"]:
             ode = jets.make_ode(p["polys"], J, d)
             odeL = ode.jet_lift(lift_by=L) if L > 0 else ode
@@ -380,6 +397,21 @@ def replay_lin(p, exp):
             rec.array(f"{kind}:constraint_ode_ts0", "damping", c0.noise.cholesky_flat, _layout(kind, exp["res"], "chol"), tol=1e-15)
         else:
             res = jets.make_residual(p["polys"], J, d)
+            if kind != "dense" and d > 1 and L == 0 and _elementwise_single_block(exp["res"], d):
+                # element-wise constraints of ONE Taylor coefficient with one output row: the stochastic trace / diagonal
+                # estimators are exact for ANY Rademacher probe (v_a J_aa v_a = J_aa; no cross terms between coefficient
+                # blocks or output rows), so the Monte-Carlo handlers must give the same affine model as the exact one
+                for hname, hctor in [("monte_carlo_fwd", lambda: pdq.jacobian_monte_carlo_fwd(seed=3, num_probes=2)), ("monte_carlo_rev", lambda: pdq.jacobian_monte_carlo_rev(seed=3, num_probes=2))]:
+                    resh = jets.make_residual(p["polys"], J, d, JM=hctor)
+                    site = f"constraint_residual(jet_lift)[{hname}]"
+                    try:
+                        cond = lin(ssm.constraint_residual(resh.jet_lift(lift_by=L)))
+                    except Exception as e:
+                        rec.calls += 1
+                        rec.fail(f"{kind}:{site}", "A", f"raised {type(e).__name__}: {str(e)[:160]}")
+                        continue
+                    rec.array(f"{kind}:{site}", "A", cond.A, _layout(kind, exp["res"], "A"), tol=1e-12)
+                    rec.array(f"{kind}:{site}", "offset", cond.noise.mean_flat, _layout(kind, exp["res"], "b"), tol=1e-12)
             sites = [("constraint_residual(jet_lift)", lambda: ssm.constraint_residual(res.jet_lift(lift_by=L))), ("constraint_residual(jet_lift_max)", lambda: ssm.constraint_residual(res.jet_lift_max(num_tcoeffs=J + L)))]
             if L == 0:
                 sites.append(("constraint_residual", lambda: ssm.constraint_residual(res)))
@@ -392,6 +424,55 @@ def replay_lin(p, exp):
                     continue
                 compare(site, cond, exp["res"])
     return rec
+
+
+class _ShiftedPoint(taylor_points.TaylorPoint):
+    """linearisation point = mean + fixed offsets; remembers the constraint and the point it was asked about"""
+
+    def __init__(self):
+        self.seen = []
+
+    def __call__(self, constraint_flat, rv, **kw):
+        m = rv.mean_flat
+        xi = m + jnp.asarray([(0.5, -0.25, 0.75, -1.0)[i % 4] for i in range(m.shape[0])])
+        self.seen.append((constraint_flat, xi, kw))
+        return xi
+
+
+def _shifted_point(rec, p, ssm, rv, damp, t):
+    """a user-supplied Taylor point (dense model): every constructor that takes one must linearise THERE - the affine
+    model reproduces the constraint value and its Jacobian at that point, and the TS1 ODE constraint stays identical to the
+    residual constraint u^(k) - f = 0."""
+    d, J, L = p["d"], p["J"], p["L"]
+    if p["fromode"]:
+        ode = jets.make_ode(p["polys"], J, d)
+        odeL = ode.jet_lift(lift_by=L) if L > 0 else ode
+        sites = [("constraint_ode_ts1(taylor_point)", lambda tp: ssm.constraint_ode_ts1(odeL, taylor_point=tp)),
+                 ("constraint_residual(residual_from_ode, taylor_point)", lambda tp: ssm.constraint_residual(pdq.residual_from_ode(odeL), taylor_point=tp))]
+    else:
+        res = jets.make_residual(p["polys"], J, d)
+        sites = [("constraint_residual(jet_lift, taylor_point)", lambda tp: ssm.constraint_residual(res.jet_lift(lift_by=L), taylor_point=tp))]
+    got = {}
+    for site, mk in sites:
+        tp = _ShiftedPoint()
+        try:
+            c = mk(tp)
+            cond = c.linearize(rv, c.init_linearization(), damp=damp, t=t)[0]
+        except Exception as e:
+            rec.calls += 1
+            rec.fail(f"dense:{site}", "A", f"raised {type(e).__name__}: {str(e)[:160]}")
+            continue
+        rec.equal(f"dense:{site}", "taylor-point-consulted", len(tp.seen) >= 1, True)
+        if not tp.seen:
+            continue
+        g, xi, kw = tp.seen[-1]
+        rec.array(f"dense:{site}", "value-at-taylor-point", cond.apply_flat(xi).mean_flat, np.asarray(g(xi, **kw)))
+        rec.array(f"dense:{site}", "jacobian-at-taylor-point", cond.A, np.asarray(jax.jacfwd(lambda s_: g(s_, **kw))(xi)))
+        got[site] = cond
+    if len(got) == 2:
+        a, b = got.values()
+        same = all(np.array_equal(np.asarray(x), np.asarray(y)) for x, y in [(a.A, b.A), (a.noise.mean_flat, b.noise.mean_flat), (a.noise.cholesky_flat, b.noise.cholesky_flat)])
+        rec.equal("dense:constraint_ode_ts1(taylor_point)", "identical-to-residual-constraint", same, True)
 
 
 def replay_job(job):
